@@ -25,6 +25,8 @@ Inductive case :=
 | CShort (v : bytes) (obs : bytes)
 (* deriveSessionKey *)
 | CKey (secret : bytes) (len : N) (obs : option key)
+(* deriveClaimKeyInfo: None = error *)
+| CClaimKey (p : policy) (secret : bytes) (obs : option (key * bytes))
 (* strconv round trip used by the expiry: claimExpiration on a policy holding SessionExpires = s *)
 | CExpiry (s : bytes) (fallback_ns : Z) (lo hi : Z) (obs : oexp)
 (* MintClaimSession; [sess_exp] is the SessionExpires integer found in the claim text (0 if none),
@@ -110,6 +112,12 @@ Definition check_case (c : case) : bool :=
   | CKey secret len obs =>
       match derive_session_key secret len, obs with
       | Ok k, Some k' => key_eqb k k'
+      | Err, None => true
+      | _, _ => false
+      end
+  | CClaimKey p secret obs =>
+      match derive_claim_key p secret, obs with
+      | Ok (k, proto), Some (k', proto') => key_eqb k k' && bytes_eqb proto proto'
       | Err, None => true
       | _, _ => false
       end
